@@ -109,6 +109,7 @@ class Gen:
         self.safe_points = []       # offsets where a fault construct may be inserted (between nodes, brace level 0)
         self.brace = 0
         self.argspans = []          # (open offset, close offset, kind) of braced arguments of declared macros
+        self.wsruns = []            # (offset, white space, context) between two adjacent literal words: copied as it is
 
     # ---- printer
     def w(self, t):
@@ -117,6 +118,17 @@ class Gen:
 
     def pos(self):
         return self.n
+
+    def tail_from(self, p):
+        """source text written since offset p"""
+        out, n = [], self.n
+        for t in reversed(self.buf):
+            if n <= p:
+                break
+            out.append(t)
+            n -= len(t)
+        s = ''.join(reversed(out))
+        return s[len(s) - (self.n - p):]
 
     def src(self):
         return ''.join(self.buf)
@@ -181,12 +193,22 @@ class Gen:
     def seq(self, n=None, allow_par=True):
         r = self.rnd
         n = n or r.randint(1, 5)
+        prev_word_end = None
+        pending = None
         for i in range(n):
             if self.brace == 0 and not self.in_detached and not self.in_head and not self.in_twice:
                 self.safe_points.append(self.pos())
+            p0, nw = self.pos(), len(self.words)
             self.node(allow_par)
+            pure = len(self.words) == nw + 1 and self.words[-1][1] == p0 and p0 + len(self.words[-1][0]) == self.pos()
+            if pure and pending and not self.in_twice:
+                self.wsruns.append(pending)
+            pending = None
             if i < n - 1:
+                p1 = self.pos()
                 self.ws(par=allow_par and r.random() < .15)
+                if pure:
+                    pending = (p1, self.tail_from(p1), '/'.join(self.path[-2:]))
 
     def group(self, n=None, allow_par=False, tag=None):
         if tag:
@@ -906,6 +928,7 @@ def random_document(rnd, size=None, lang='en', kinds=None, max_depth=5, glossary
     d.gen = g
     d.safe_points = g.safe_points
     d.argspans = g.argspans
+    d.wsruns = g.wsruns
     return d
 
 
